@@ -290,17 +290,25 @@ def emitRst (k : Kernel) (l r : SockAddr) (s : Seg) : Kernel :=
   k.emit l r { srcPort := l.port, dstPort := r.port, seq := seq, ack := ack,
                flags := { rst := true, ack := af }, window := 0, payload := [] }
 
-/-- `abort_with` (tcp.rs:755). With `fixReapOrphan` a still-handshaking child (never owned by the
-    application) is marked `fd_closed` so `reap_closed` reclaims it. -/
+/-- `abort_with` (tcp.rs:755). -/
 def abortWith (cfg : Cfg) (k : Kernel) (fd : Nat) (byReset : Bool) : Kernel :=
+  let _ := cfg
   match k.getSock fd with
   | none => k
   | some s =>
     match s.tcb with
     | none => k
-    | some t =>
-      let orphan := cfg.fixReapOrphan && t.state == .synReceived
-      k.setSock fd { s with tcb := some (t.abort byReset), fdClosed := s.fdClosed || orphan }
+    | some t => k.setSock fd { s with tcb := some (t.abort byReset) }
+
+/-- The two call sites of `abort_with` (RST branch of `handle_on_connection`, abort loop of
+    `check_retx`). With `fixReapOrphan` (the F-C13-1 / F-C17-1 repair) a child that is still
+    `SynReceived` — never handed to the application, so nobody would ever close it — is removed from
+    the table on the spot instead of being left behind as a `Closed` TCB. -/
+def abortOrReap (cfg : Cfg) (k : Kernel) (fd : Nat) (byReset : Bool) : Kernel :=
+  let orphan := match k.getTcb fd with
+    | some t => t.state == .synReceived
+    | none => false
+  if cfg.fixReapOrphan && orphan then k.remove fd else abortWith cfg k fd byReset
 
 /-- `count_children` (tcp.rs:808). -/
 def countChildren (k : Kernel) (listenerFd : Nat) (l : SockAddr) : Nat :=
@@ -345,7 +353,7 @@ def pushToListener (k : Kernel) (child : Nat) (l : SockAddr) : Kernel :=
 
 /-- `handle_on_connection` (tcp.rs:194). -/
 def handleOnConnection (cfg : Cfg) (k : Kernel) (fd : Nat) (l r : SockAddr) (s : Seg) : Kernel :=
-  if s.flags.rst then abortWith cfg k fd true
+  if s.flags.rst then abortOrReap cfg k fd true
   else
     match k.getSock fd with
     | none => k
@@ -493,7 +501,7 @@ def emitHandshake (k : Kernel) (fd : Nat) : Kernel :=
 def checkRetx (cfg : Cfg) (k : Kernel) : Kernel :=
   let r := k.retxCands.foldl (retxPass1Step cfg) (k, [], [])
   let k2 := r.2.1.foldl emitHandshake r.1
-  r.2.2.foldl (fun k fd => abortWith cfg k fd false) k2
+  r.2.2.foldl (fun k fd => abortOrReap cfg k fd false) k2
 
 /-- `segment_one` (tcp.rs:1249). -/
 def segmentOne (cfg : Cfg) (k : Kernel) (fd : Nat) : Kernel :=
